@@ -236,6 +236,9 @@ func (e *Engine) runOnce(c *Contract, fn *ssa.Function, res *FuncResult) {
 		// the atoms of a precondition talk about the entry state only: they hold throughout
 		var atoms func(t *Term, pos bool)
 		atoms = func(t *Term, pos bool) {
+			if !t.IsLit() && t.Op != "forall" && t.Op != "not" {
+				known[t] = pos
+			}
 			switch {
 			case t.Op == "and" && pos:
 				for _, a := range t.Args {
@@ -258,6 +261,63 @@ func (e *Engine) runOnce(c *Contract, fn *ssa.Function, res *FuncResult) {
 		}
 		atoms(g, true)
 		// unit propagation over the negated conjunctions (they come from && chains in Go specs)
+		var evalKnown func(t *Term, d int) (bool, bool)
+		evalKnown = func(t *Term, d int) (bool, bool) {
+			if t.IsTrue() {
+				return true, true
+			}
+			if t.IsFalse() {
+				return false, true
+			}
+			if v, ok := known[t]; ok {
+				return v, true
+			}
+			if d > 8 {
+				return false, false
+			}
+			switch t.Op {
+			case "not":
+				v, ok := evalKnown(t.Args[0], d+1)
+				return !v, ok
+			case "and":
+				all := true
+				for _, a := range t.Args {
+					v, ok := evalKnown(a, d+1)
+					if ok && !v {
+						return false, true
+					}
+					if !ok {
+						all = false
+					}
+				}
+				return true, all
+			case "or":
+				all := true
+				for _, a := range t.Args {
+					v, ok := evalKnown(a, d+1)
+					if ok && v {
+						return true, true
+					}
+					if !ok {
+						all = false
+					}
+				}
+				return false, all
+			case "=>":
+				a, oka := evalKnown(t.Args[0], d+1)
+				b, okb := evalKnown(t.Args[1], d+1)
+				if oka && !a {
+					return true, true
+				}
+				if okb && b {
+					return true, true
+				}
+				if oka && okb {
+					return !a || b, true
+				}
+			}
+			return false, false
+		}
 		for changed := true; changed; {
 			changed = false
 			var rest []*Term
@@ -265,31 +325,11 @@ func (e *Engine) runOnce(c *Contract, fn *ssa.Function, res *FuncResult) {
 				var open []*Term
 				sat := false
 				for _, x := range n.Args {
-					y, pos := x, true
-					if y.Op == "not" {
-						y, pos = y.Args[0], false
-					}
-					if v, ok := known[y]; ok {
-						if v != pos {
+					if v, ok := evalKnown(x, 0); ok {
+						if !v {
 							sat = true
 						}
 						continue
-					}
-					if y.Op == "and" && pos {
-						// nested conjunction: treat as open unless all members known true
-						all := true
-						for _, z := range y.Args {
-							zz, zp := z, true
-							if zz.Op == "not" {
-								zz, zp = zz.Args[0], false
-							}
-							if v, ok := known[zz]; !ok || v != zp {
-								all = false
-							}
-						}
-						if all {
-							continue
-						}
 					}
 					open = append(open, x)
 				}
@@ -307,6 +347,45 @@ func (e *Engine) runOnce(c *Contract, fn *ssa.Function, res *FuncResult) {
 		}
 	}
 	tb.Known = known
+	// case assumptions (proof hint): exhaustiveness is an obligation, the chosen alternative is assumed
+	if len(c.Cases) > 0 && len(e.caseCombo) == len(c.Cases) {
+		for gi, cg := range c.Cases {
+			var alts []*Term
+			for _, alt := range cg.Alts {
+				var conj []*Term
+				for _, a := range alt {
+					t := e.evalClause(fr, st, entry, a.Cl, nil)
+					if a.Neg {
+						t = tb.Not(t)
+					}
+					conj = append(conj, t)
+				}
+				alts = append(alts, tb.And(conj...))
+			}
+			first := true
+			for _, k := range e.caseCombo[:gi] {
+				if k != 0 {
+					first = false
+				}
+			}
+			if first && e.caseCombo[gi] == 0 {
+				e.addObligation(fr, st, "cases", cg.Name+".exhaustive", tb.Or(alts...), nil)
+			}
+			for _, a := range cg.Alts[e.caseCombo[gi]] {
+				t := e.evalClause(fr, st, entry, a.Cl, nil)
+				if t.IsLit() {
+					continue
+				}
+				if a.Neg {
+					e.addFact(st, tb.Not(t))
+				} else {
+					e.addFact(st, t)
+				}
+				known[t] = !a.Neg
+			}
+		}
+		tb.Known = known
+	}
 	// orient equalities of the precondition whose one side is a load path of the entry state
 	rw := map[*Term]*Term{}
 	isLoadPath := func(t *Term) bool {
@@ -314,7 +393,11 @@ func (e *Engine) runOnce(c *Contract, fn *ssa.Function, res *FuncResult) {
 		for x.Op == "acc" {
 			x = x.Args[0]
 		}
-		return x != t && x.Op == "select" && x.Args[0].Op == "const" && strings.HasPrefix(x.Args[0].Name, "h0_")
+		if x.Op != "select" || x.Args[0].Op != "const" || !strings.HasPrefix(x.Args[0].Name, "h0_") {
+			return false
+		}
+		// whole loaded values are rewritten only for interface / pointer sorts (their representation is a constructor)
+		return x != t || t.Sort == SIface || t.Sort == SRef
 	}
 	contains := func(t, x *Term) bool {
 		found := false
@@ -362,51 +445,16 @@ func (e *Engine) runOnce(c *Contract, fn *ssa.Function, res *FuncResult) {
 		for a, b := range rw {
 			fmt.Fprintf(os.Stderr, "REWRITE %s -> %s\n", tb.Show(a), tb.Show(b))
 		}
+		for _, pn := range pendingNand {
+			fmt.Fprintf(os.Stderr, "PENDING %s\n", tb.Show(pn))
+		}
 		for a, v := range known {
 			if a.Op == "=" {
 				fmt.Fprintf(os.Stderr, "KNOWN-EQ %v %s\n", v, tb.Show(a))
 			}
 		}
 	}
-	// case assumptions (proof hint): exhaustiveness is an obligation, the chosen alternative is assumed
-	if len(c.Cases) > 0 && len(e.caseCombo) == len(c.Cases) {
-		for gi, cg := range c.Cases {
-			var alts []*Term
-			for _, alt := range cg.Alts {
-				var conj []*Term
-				for _, a := range alt {
-					t := e.evalClause(fr, st, entry, a.Cl, nil)
-					if a.Neg {
-						t = tb.Not(t)
-					}
-					conj = append(conj, t)
-				}
-				alts = append(alts, tb.And(conj...))
-			}
-			first := true
-			for _, k := range e.caseCombo[:gi] {
-				if k != 0 {
-					first = false
-				}
-			}
-			if first && e.caseCombo[gi] == 0 {
-				e.addObligation(fr, st, "cases", cg.Name+".exhaustive", tb.Or(alts...), nil)
-			}
-			for _, a := range cg.Alts[e.caseCombo[gi]] {
-				t := e.evalClause(fr, st, entry, a.Cl, nil)
-				if t.IsLit() {
-					continue
-				}
-				if a.Neg {
-					e.addFact(st, tb.Not(t))
-				} else {
-					e.addFact(st, t)
-				}
-				known[t] = !a.Neg
-			}
-		}
-		tb.Known = known
-	}
+
 	nreq := len(e.facts)
 	_ = nreq
 	results, out := e.runBody(fr, st)
